@@ -10,6 +10,7 @@ From WG Require Import BV.Bits.
 From WG Require Import Par.Splice.
 From WG Require Import Flags.Props.
 From WG Require Import Visits.Bfs.
+From WG Require Import Visits.Dfs.
 
 Extraction Language OCaml.
 
@@ -66,4 +67,22 @@ Extraction "model.ml"
   steps
   bfs_order
   bfs_from_roots
+  dfs
+  ev_upto
+  ev_erase
+  top_sort
+  is_acyclic
+  dfs_order
+  dfs_order_spec
+  dfs_filter
+  wf_events
+  wf_events_prefix
+  reach_plus
+  reach_star
+  has_cycle_brute
+  check_topsort
+  is_perm_nodes
+  pre_nodes
+  post_nodes
+  flagged
 .
